@@ -54,6 +54,21 @@ func Run(c *vf.Check) {
 						}
 						jobs = append(jobs, pcfg{n: n, t: t, fast: fast, reshare: rs, fault: f, permNode: -1})
 					}
+					// a leaving old member (a dealer only) deviates: invalid share to each member of the new group
+					if rs == "replace-one" || rs == "shrink" {
+						newN := n
+						if rs == "shrink" {
+							newN = n - 1
+						}
+						for _, k := range []string{"bad-share+no-justification", "bad-share", "absent-deals"} {
+							for tg := 0; tg < newN; tg++ {
+								if k == "absent-deals" && tg > 0 {
+									continue
+								}
+								jobs = append(jobs, pcfg{n: n, t: t, fast: fast, reshare: rs, fault: fault{k, 1000, tg}, permNode: -1})
+							}
+						}
+					}
 				}
 			}
 		}
@@ -77,6 +92,7 @@ func Run(c *vf.Check) {
 	vf.Parallel(len(rj), func(i int) { rj[i]() })
 	runProtocol(c)
 	c.Finish("engine S/E on the real DistKeyGenerator objects (Pedersen) and the per-message Rabin API: n=3 (thorough 3,4), every t in [n/2+1, n], regular and fast-sync, fresh and resharing {same group, same members under permuted indices (full fault menu), one leaves and one joins, growing, shrinking, new threshold}; (thorough: also n=5, t=3 with TWO deviating parties, every pair of behaviours from a menu of 8); the deviating party (first or last index) gets one behaviour from a menu of 19 {absent in all / response / justification phases, invalid share to each victim (then justified, not justified, wrongly justified), share encrypted to the wrong holder, share index out of range, commitments of length t-1 / t+1, wrong session id on deals / responses / justifications, duplicate identical bundle, two conflicting bundles, false complaint against each dealer, success response in regular mode, response naming an unknown dealer, justification for an out-of-range index, (resharing) wrong constant term}; bundles are mutated honest bundles re-signed with the deviating party's key and filtered by VerifyPacketSignature at every receiver as the Protocol driver does. "+
+		"Also: a LEAVING old member (a dealer only) sending an invalid share to each member of the new group (justified never) or no deals; a response entry with a status code that is neither Success nor Complaint; an honest receiver of an invalid share must answer with a complaint about exactly that dealer (old-group index); Rabin: the output asked for twice is the same value and the first answer is left as it was. "+
 		"For every honest node and phase, EVERY permutation of the bundle slice handed to ProcessDeals/Responses/Justifications is run and the node's emitted bundle and final output must equal those of the canonical order. End-state oracle: honest nodes that complete have identical commitments and QUAL, each share lies on the polynomial, every t-subset of honest shares reconstructs the secret of the public key, the key is the sum of QUAL's contributions (resharing: unchanged), a dealer with an unjustified invalid deal is not in QUAL, an honest dealer with < t complaints is; no fault => everybody completes. "+
 		"L2 - the goroutine-driven Protocol type: n=3 real dkg.Protocol instances (signature verification on) talk through a harness Board (unbuffered channels, one pending send at a time) and a harness Phaser, so the harness decides the whole schedule; events = {phase tick at node i (timers fire only when no delivery is pending anywhere), delivery of a posted packet to node i, one repeated delivery}; stateless depth-first search with sleep sets (events at different nodes commute), every execution run to completion on fresh objects, InitPhase ticks as barriers; regular mode without faults: ALL schedules (every Mazurkiewicz trace once); other configurations: all schedules within the stated number of deviations from the canonical synchronous-rounds schedule; deviating party behaviours {absent, invalid share (justified / not), two conflicting deal bundles, false complaint, two conflicting response bundles} applied to what its real Protocol pushes; plus an all-honest resharing from 3 members to 4 (one newcomer) in both modes; same end-state oracle plus: every Protocol goroutine delivers a result or an error. "+
 		"non-trivial = runs with a fault or a non-identity delivery order / non-canonical schedule; distinct by (configuration, fault, permuted node/phase/order or schedule)",
